@@ -748,6 +748,9 @@ def check_c06(sc, res):
     good_backup = base.after[0].get(bak_path) if (bak_path and base_ok) else None
     trace = list(base.disk.events)
     K = len(trace)
+    for bk, bv in base.disk.buggify.items():
+        if bv:
+            res.stats["buggify:" + bk] += bv
     res.steps += K + len(sc["ops"])
     tshape = shash(tuple(e[1] for e in trace)) & 0xffffff
     shape = (facade, kind, enc, bool(out), out_path == inp, bool(bak), tshape)
